@@ -1178,6 +1178,60 @@ def b_crop_helpers(S):
     return out
 
 
+def b_crop_pipeline(S):
+    """whole `crop_to_target_areas`: the LineString-only TypeError, the spatial pre-filter unless `is_filtered`, `gpd.clip` row by row (a parameter: what is left
+    of a geometry inside the areas, or nothing), the GeometryCollection explode, the (Multi)LineString type filter, the regenerated
+    `dissolve_multi_part_traces`, the MINIMUM_LINE_LENGTH filter. Rows are (data, geometry) pairs; index labels and the CRS are not modelled
+    (three checked rewritings remove `match_crs` and the two `reset_index` calls)."""
+    src0 = S[GENERAL]
+    n0 = (len(re.findall(r"traces, areas = match_crs\(traces, areas\)\n", src0)), len(re.findall(r"        traces = traces\.reset_index\(drop=True\)\n", src0)),
+          len(re.findall(r"    clipped_and_dissolved_traces\.reset_index\(inplace=True, drop=True\)\n", src0)))
+    src = standalone(src0, "crop_to_target_areas", [
+        (r"    traces, areas = match_crs\(traces, areas\)\n", ""),
+        (r"        traces = traces\.reset_index\(drop=True\)\n", ""),
+        (r"    clipped_and_dissolved_traces\.reset_index\(inplace=True, drop=True\)\n", ""),
+        (r"candidate_traces: Union\[gpd\.GeoSeries, gpd\.GeoDataFrame\] = traces\.iloc\[\n\s*candidate_idxs\n\s*\]", "candidate_traces = traces.iloc[candidate_idxs]"),
+    ])
+    if "match_crs" in src or "reset_index" in src or "Union[" in src.split('"""')[-1]:
+        raise Untranslatable(f"crop_to_target_areas: rewriting of match_crs / reset_index / the annotated assignment failed ({n0})")
+    ROWS = "List (D × G)"
+    C = {
+        "all((isinstance(trace, LineString) for trace in traces.geometry.values))": "(List.all traces (fun r => is_ls r.2))",
+        "traces.sindex": "()",
+        "total_bounds(areas)": "()",
+        "isinstance(spatial_index, SpatialIndex)": "true", "len(areas_bounds) == 4": "true", "hasattr(clipped_traces, 'geometry')": "true",
+        "isinstance(clipped_traces, (gpd.GeoDataFrame, gpd.GeoSeries))": "true", "clipped_and_dissolved_traces.shape[0] >= clipped_and_dissolved_traces.shape[0]": "true",
+        "spatial_index_intersection(spatial_index=spatial_index, coordinates=areas_bounds)": "window",
+        "traces.iloc[candidate_idxs]": "(List.filterMap (fun i => traces[i]?) candidate_idxs)",
+        "gpd.clip(candidate_traces, areas)": "(List.filterMap (fun r => (clipg r.2).map (fun g => (r.1, g))) candidate_traces)",
+        "sum(clipped_traces.geometry.length < MINIMUM_LINE_LENGTH)": "(List.countP (fun r => !(long r.2)) clipped_traces)",
+        "[isinstance(geom, GeometryCollection) for geom in clipped_traces.geometry.values]": "(List.map (fun r => is_coll r.2) clipped_traces)",
+        "any(is_collection)": "(List.any is_collection id)",
+        "pd.concat([clipped_traces.loc[[not val for val in is_collection]], clipped_traces.loc[is_collection].explode(index_parts=False)])":
+            "((pyCompress clipped_traces (List.map (fun val => !val) is_collection)) ++ (List.flatMap (fun r => List.map (fun g => (r.1, g)) (cparts r.2)) (pyCompress clipped_traces is_collection)))",
+        "clipped_traces.loc[[isinstance(geom, (LineString, MultiLineString)) for geom in clipped_traces.geometry.values]]": "(List.filter (fun r => is_ls r.2 || is_mls r.2) clipped_traces)",
+        "dissolve_multi_part_traces(clipped_traces)": "(dissolve_multi_part_traces is_mls is_ls parts clipped_traces)",
+        "clipped_and_dissolved_traces.loc[clipped_and_dissolved_traces.geometry.length > MINIMUM_LINE_LENGTH]": "(List.filter (fun r => long r.2) clipped_and_dissolved_traces)",
+    }
+    T = {
+        "isinstance(spatial_index, SpatialIndex)": "Bool", "len(areas_bounds) == 4": "Bool", "hasattr(clipped_traces, 'geometry')": "Bool",
+        "isinstance(clipped_traces, (gpd.GeoDataFrame, gpd.GeoSeries))": "Bool", "clipped_and_dissolved_traces.shape[0] >= clipped_and_dissolved_traces.shape[0]": "Bool",
+        "all((isinstance(trace, LineString) for trace in traces.geometry.values))": "Bool", "traces.sindex": "Unit", "spatial_index": "Unit", "total_bounds(areas)": "Unit", "areas_bounds": "Unit",
+        "spatial_index_intersection(spatial_index=spatial_index, coordinates=areas_bounds)": "List Nat", "candidate_idxs": "List Nat", "traces.iloc[candidate_idxs]": ROWS, "candidate_traces": ROWS,
+        "gpd.clip(candidate_traces, areas)": ROWS, "clipped_traces": ROWS, "sum(clipped_traces.geometry.length < MINIMUM_LINE_LENGTH)": "Nat", "sum_smaller_than_minimum": "Nat",
+        "[isinstance(geom, GeometryCollection) for geom in clipped_traces.geometry.values]": "List Bool", "is_collection": "List Bool", "any(is_collection)": "Bool",
+        "pd.concat([clipped_traces.loc[[not val for val in is_collection]], clipped_traces.loc[is_collection].explode(index_parts=False)])": ROWS,
+        "clipped_traces.loc[[isinstance(geom, (LineString, MultiLineString)) for geom in clipped_traces.geometry.values]]": ROWS,
+        "dissolve_multi_part_traces(clipped_traces)": "Except " + ROWS, "clipped_and_dissolved_traces": ROWS,
+        "clipped_and_dissolved_traces.loc[clipped_and_dissolved_traces.geometry.length > MINIMUM_LINE_LENGTH]": ROWS,
+    }
+    return translate_function(
+        src, "crop_to_target_areas", "crop_to_target_areas", {"traces": ROWS, "is_filtered": "Bool", "allow_multilinestring_input": "Bool"}, ROWS, C, types=T, raises=True,
+        extra_params=[("{D}", "Type"), ("{G}", "Type"), ("is_mls", "G → Bool"), ("is_ls", "G → Bool"), ("is_coll", "G → Bool"), ("parts", "G → List G"), ("cparts", "G → List G"),
+                      ("clipg", "G → Option G"), ("long", "G → Bool"), ("window", "List Nat")],
+        slice_from="if (", default_num="Nat", join="tuple")
+
+
 def b_dedupe(S):
     """`filter_non_unique_traces`: the key of a trace is its WKT at `int(-log10(snap))` decimals (a parameter of type K); the first trace with
     a key is kept, later ones with the same key are dropped, order preserved"""
@@ -2138,6 +2192,7 @@ ITEMS: List[Item] = [
     Item("GridLoops", GRID, ["C18"], b_grid_loops),
     Item("GridSampling", GRID, ["C18"], b_grid_sampling),
     Item("IndexMargins", GENERAL, ["C16"], b_index_margins, extra_modules=[PROX]),
+    Item("CropPipeline", GENERAL, ["C07", "C04", "C14", "C18"], b_crop_pipeline, deps=["CropHelpers"]),
     Item("Cli", CLI, ["C19"], b_cli),
     Item("ErrorColumn", TVAL, ["C19", "C13"], b_error_column),
     Item("DetermineIntersect", REL, ["C12"], b_determine_intersect),
